@@ -33,6 +33,8 @@ _GEN_TIE2["C18"] = [("BV.Props.C18vGen", "FnC18v", "(by-value struct mode: Comma
     "get_length_code_generated (insert lengths < 22594 + 2^24, copy length codes 2 .. 2118 + 2^24), block_length_prefix_code_generated (EVERY length: the while loop = the model's table walk), get_block_length_prefix_code_generated (1 .. 2^24: code, n_extra, extra), copy_len_code_generated (every u32 copy_len_ field), init_generated / command_new_generated (every field of the command: insert_len_, copy_len_ = packCopyLen, dist_prefix_ / dist_extra_ = the model's packed prefix code and extra bits, cmd_prefix_ = getLengthCode with the implicit-distance flag; NPOSTFIX <= 3, NDIRECT <= 120, distance code < 2^62, copylen < 2^25), init_insert_generated, store_command_extra_generated (the generated write list is the model's single (nbits, value) field, on every command whose lengths lie in the format's buckets)")]
 _GEN_TIE2["C20"] = [("BV.Props.C20Gen", "FnC20", "set_parameter (the free function: the `match` over BrotliEncoderParameter, whose variants the body imports with `use ...::*`, becomes a chain of tests on the discriminants read from src/enc/parameters.rs), BrotliEncoderStateStruct::set_parameter, SanitizeParams, ComputeLgBlock, EncodeWindowBits (parameter and encoder-state structs as Lean structures of their supported fields)",
     "set_parameter_generated (EVERY parameter id — the 27 of the match and every other number — and every u32 value: the generated function returns false with the parameters untouched exactly when the model's setParamRaw refuses, otherwise true with the model's value in every field the model keeps), state_set_parameter_generated (the method refuses on an initialised encoder, otherwise it is the free function on self.params: the model's setParameter), sanitize_generated and compute_lg_block_generated (every parameter structure, against BV.Stream.sanitize / computeLgBlock), encode_window_bits_generated (8 <= lgwin < 64, both forms, against BV.Stream.encodeWindowBits)")]
+_GEN_TIE2["C14"] = [("BV.Props.C14Gen", "FnC18v", "Command::distance_index_and_offset (by-value struct mode)",
+    "distance_index_and_offset_generated (every command with a u16 dist_prefix_ and every u32 NDIRECT: whenever the recoder model's distanceIndexAndOffset returns — it answers none for a debug-build overflow or an out-of-range shift — the generated function returns the same (index, offset) pair: short-code table, direct codes, long codes)")]
 _GEN_TIE_LIST = {}
 for _pid, (_mod, _fns, _ths) in _GEN_TIE.items():
     _GEN_TIE_LIST.setdefault(_pid, []).append((_mod, "Fn" + _mod[-6:-3], _fns, _ths))
